@@ -120,6 +120,27 @@ def field_write(code, length, F):
             sx.prove(var.raw == val, "read back", key + "/readback")
     except Exception as e:
         sx.fail("read back raised %s" % C.exc_name(e), key + "/readback-raises")
+    # the frame is replaced (a received PDO, a direct assignment) and the same value is written once more through the
+    # same variable object: the write happens again
+    frame2 = sx.fresh_bytes("frame2", F)
+    m.data = sx.mod("builtins").bytearray(frame2) if not sx.symbolic() else _ba(frame2)
+    fi2 = _frame_int(sx.items(frame2))
+    try:
+        if code in (S301.REAL32, S301.REAL64):
+            var.data = val_bytes
+        elif code == S301.BOOLEAN:
+            var.raw = b
+        else:
+            var.raw = val
+    except Exception as e:
+        sx.fail("second write raised %s" % C.exc_name(e), key + "/rewrite-raises")
+        return
+    items2 = sx.items(m.data)
+    sx.prove(len(items2) == F and (_frame_int(items2) == ((fi2 & ~(mask << off)) | (low << off))) is not False,
+             "writing the same value again after the frame changed", key + "/rewrite")
+    if len(items2) == F:
+        sx.prove(_frame_int(items2) == ((fi2 & ~(mask << off)) | (low << off)), "second write of the same value",
+                 key + "/rewrite-bits")
     sx.reach("write")
 
 
@@ -247,7 +268,7 @@ def layout_mixed(spec):
     sx.reach("layout-mixed")
 
 
-def layout_reread(prior):
+def layout_reread(prior, wide=None):
     """The layout read from the configuration (here: from the dictionary) starts at bit 0 whatever the map held
     before (prior add_variable calls, an earlier read): offsets are the running sum, the frame is ceil(total/8)."""
     od = C.typed_od()
@@ -255,6 +276,8 @@ def layout_reread(prior):
     od[0x1800][1].default = 0x183
     od[0x1800][2].default = 255
     spec = [(C.TYPE_INDEX[0x01], 1), (C.TYPE_INDEX[0x06], 16), (C.TYPE_INDEX[0x02], 3), (C.TYPE_INDEX[0x07], 32)]
+    if wide is not None:
+        spec = [(C.TYPE_INDEX[wide], 64)]          # one object that fills the PDO
     mp[0].default = len(spec)
     for i, (idx, ln) in enumerate(spec, 1):
         mp[i].default = (idx << 16) | ln
@@ -318,6 +341,8 @@ def jobs(tier):
     out.append(dict(func="layout_step", params={}, weight=4))
     for prior in (0, 1, 3):
         out.append(dict(func="layout_reread", params=dict(prior=prior)))
+    for wide in (0x1B, 0x15, 0x11):
+        out.append(dict(func="layout_reread", params=dict(prior=0, wide=wide)))
     concrete = [[8] * 8, [1, 2, 3, 4, 5, 6, 7, 8], [1, 1, 1, 1, 1, 1, 1, 8], [3, 5, 7, 2, 6, 8, 1]]
     if tier == "thorough":
         concrete += [[7, 1, 7, 1, 7, 1, 8, 8], [1] * 8, [2, 6, 8, 8, 8, 8, 8, 8], [5, 3, 6, 1, 7, 4, 2], [5, 5, 5, 5, 5, 5, 5, 5],
